@@ -168,7 +168,7 @@ class SArr(list):
         return [r.tolist() if isinstance(r, SArr) else r for r in self]
 
     def _ew(self, o, f):
-        if isinstance(o, (list, SArr)):
+        if isinstance(o, (list, SArr, _np.ndarray)):
             if len(o) != len(self):
                 raise HarnessError('broadcast of different lengths')
             return SArr([f(a, b) for a, b in zip(self, o)], 'f' if 'f' in (self.kind, getattr(o, 'kind', 'f')) else self.kind)
@@ -176,6 +176,35 @@ class SArr(list):
 
     def __add__(self, o):
         return self._ew(o, lambda a, b: a + b)
+
+    def __radd__(self, o):
+        return self._ew(o, lambda a, b: b + a)
+
+    def __rsub__(self, o):
+        return self._ew(o, lambda a, b: b - a)
+
+    def __rmul__(self, o):
+        return self._ew(o, lambda a, b: b * a)
+
+    def __array_ufunc__(self, ufunc, method, *inputs, **kw):
+        """element-wise numpy ufuncs on arrays that hold symbolic numbers (comparisons fork the path)"""
+        table = {'add': lambda a, b: a + b, 'subtract': lambda a, b: a - b, 'multiply': lambda a, b: a * b,
+                 'true_divide': lambda a, b: a / b, 'divide': lambda a, b: a / b,
+                 'maximum': lambda a, b: a if a >= b else b, 'minimum': lambda a, b: a if a <= b else b,
+                 'negative': lambda a: -a, 'absolute': lambda a: abs(a)}
+        f = table.get(ufunc.__name__)
+        if method != '__call__' or f is None or kw.get('out') is not None:
+            raise HarnessError('numpy ufunc %s.%s on a symbolic array is not modelled' % (ufunc.__name__, method))
+        n = len(self)
+        cols = []
+        for a in inputs:
+            if isinstance(a, (list, SArr, _np.ndarray)):
+                if len(a) != n:
+                    raise HarnessError('broadcast of different lengths')
+                cols.append(list(a))
+            else:
+                cols.append([a] * n)
+        return SArr([f(*[c[i] for c in cols]) for i in range(n)], 'f')
 
     def __sub__(self, o):
         return self._ew(o, lambda a, b: a - b)
